@@ -240,9 +240,19 @@ def eval_case(c):
         if not s.success:
             return {'status': 'inconclusive', 'nontrivial': False, 'violations': [], 'obs': {'note': 'solver failed: ' + s.message[:80]}}
         k_solver = complex(s.k[0])
+        # convergence probe with another integrator (a low-order integrator may not reach its nominal tolerance over the (r0/R)^l dynamic range)
+        other = 'DOP853' if c['method'] != 'DOP853' else 'RK45'
+        arrs2 = homogeneous(R, rho, mu_c, K, 80, r0)
+        s2 = radial_solver(*arrs2, w, rho, ('solid',), (True,), (False,), (R,), degree_l=l, use_kamata=c['kamata'], integration_method=other,
+                           integration_rtol=rtol, integration_atol=rtol * 1e-4, max_num_steps=200000)
+        if not s2.success:
+            return {'status': 'inconclusive', 'nontrivial': False, 'violations': [], 'obs': {'note': 'convergence probe failed: ' + s2.message[:80]}}
+        dconv = abs(complex(s2.k[0]) - k_solver)
+        if dconv > 1e-6:
+            return {'status': 'inconclusive', 'nontrivial': False, 'violations': [], 'obs': {'note': f'solver result not converged: {c["method"]} and {other} differ by {dconv:.2e}'}}
         J = 1.0 / mu_c
         k_helper = complex(calc_complex_love_general(J, mu0, calc_effective_rigidity_general(mu0, gs, R, rho, l), l))
-        budget = 200 * rtol + 20 * max(abs(mu_c), rho * gs * R) / K + 2e-6
+        budget = 200 * rtol + 20 * max(abs(mu_c), rho * gs * R) / K + 2e-6 + 10 * dconv
         cnt['comparisons'] += 1
         if abs(k_solver - k_helper) > budget:
             viol.append({'key': 'helper-vs-layered-solver', 'desc': f'l={l}: helper k={k_helper!r} layered solver k={k_solver!r} |diff|={abs(k_solver-k_helper):.3e} > {budget:.1e} (mu={mu_c!r} R={R:.4g} rho={rho:.4g})',
